@@ -121,7 +121,7 @@ func ZZ_C20_H1() {
 	var ops []int
 	var nums []int
 	for i := 0; i <= k; i++ {
-		nums = append(nums, zz.Choose("operand", len(zzNums)))
+		nums = append(nums, zz.Choose("operand", zz.Param("NUMS", len(zzNums))))
 		if i < k {
 			ops = append(ops, zz.Choose("operator", len(zzOps)))
 		}
